@@ -124,6 +124,8 @@ def run_script(mods, script, tid):
         else:
             fn = "query" if (n + tid) % 2 else "command"
             text = "QS\r" if fn == "query" else "EM,0,0\r"
+        term = ["\r", "\r", "\r", "", "\r\n", "\n"][(n * 7 + tid) % 6]           # callers may terminate a request differently, or not at all
+        text = text.rstrip("\r") + term
         name = text.split(",")[0].strip().lower()
         log.append({"ev": "call", "first": k == 0, "fn": fn, "name": name, "kind": kind, "d1": plan["d1"], "d2": plan["d2"],
                     "fault": plan["fault"], "text": text, "blank": bool(plan.get("blank"))})
